@@ -159,3 +159,239 @@ Qed.
 Theorem winding_split (A B C p : V) (s : R) : between A B C s ->
   (winding (new_line_info (A, C)) p + winding (new_line_info (C, B)) p = winding (new_line_info (A, B)) p)%Z.
 Proof. intros H. rewrite !winding_eq_spec. exact (cross_spec_split A B C p s H). Qed.
+
+(* ------------------------------------------------------------ (2) squared distance to a segment *)
+Definition pt (A B : V) (t : R) : V := mkV2 (vx A + t * (vx B - vx A)) (vy A + t * (vy B - vy A)).
+
+(* d is the squared Euclidean distance from p to the segment AB: attained at some parameter in
+   [0,1], and a lower bound at every parameter in [0,1] *)
+Definition is_segdist2 (A B p : V) (d : R) : Prop :=
+  (exists t, 0 <= t <= 1 /\ dist2_2 p (pt A B t) = d) /\
+  (forall t, 0 <= t <= 1 -> d <= dist2_2 p (pt A B t)).
+
+Lemma is_segdist2_unique A B p d d' : is_segdist2 A B p d -> is_segdist2 A B p d' -> d = d'.
+Proof.
+  intros [(t & Ht & E) L] [(t' & Ht' & E') L'].
+  pose proof (L t' Ht'). pose proof (L' t Ht). lra.
+Qed.
+
+Lemma Rltb_ext a b c d : (a < b <-> c < d) -> Rltb a b = Rltb c d.
+Proof.
+  intros H. destruct (Rltb c d) eqn:E; [apply Rltb_true in E; apply Rltb_true; tauto|].
+  apply Rltb_false in E. apply Rltb_false. destruct (Rle_dec b a); [assumption|]. exfalso. apply Rnot_le_lt in n. apply H in n. lra.
+Qed.
+
+Definition nondeg (l : SegR) : Prop :=
+  0 < (vx (snd l) - vx (fst l)) * (vx (snd l) - vx (fst l)) + (vy (snd l) - vy (fst l)) * (vy (snd l) - vy (fst l)).
+
+(* minDistance2 (normalised direction, length, projection) is the sqrt-free specification *)
+Theorem mindist2_eq_spec (l : SegR) (p : V) : nondeg l ->
+  min_distance2 (new_line_info l) p = segdist2_spec l p.
+Proof.
+  destruct l as [[ax ay] [bx by_]], p as [px py]. unfold nondeg; cbn [fst snd vx vy]. intros Hpos.
+  unfold min_distance2, segdist2_spec, new_line_info, v2normalize, v2len, v2len2, v2dot, v2cross, v2muls, v2sub; cbn. unops.
+  remember ((bx - ax) * (bx - ax) + (by_ - ay) * (by_ - ay)) as vv eqn:Evv.
+  assert (HL : 0 < sqrt vv) by (apply sqrt_lt_R0; exact Hpos).
+  assert (HLL : sqrt vv * sqrt vv = vv) by (apply sqrt_sqrt; lra).
+  remember (sqrt vv) as L eqn:EL.
+  remember ((px - ax) * (bx - ax) + (py - ay) * (by_ - ay)) as c eqn:Ec.
+  assert (Et : (px - ax) * ((bx - ax) * (1 / L)) + (py - ay) * ((by_ - ay) * (1 / L)) = c / L)
+    by (rewrite Ec; field; lra).
+  rewrite Et.
+  assert (Hi : 0 < / L) by (apply Rinv_0_lt_compat; exact HL).
+  assert (B1 : Rltb (c / L) 0 = Rltb c 0).
+  { apply Rltb_ext. unfold Rdiv. split; intros H; nra. }
+  assert (B2 : Rltb L (c / L) = Rltb vv c).
+  { apply Rltb_ext. split; intros H.
+    - assert (L * L < c / L * L) by nra. replace (c / L * L) with c in H0 by (field; lra). lra.
+    - assert (c / L = c * / L) by reflexivity. assert (L = vv * / L) by (rewrite <- HLL; field; lra). nra. }
+  rewrite B1, B2.
+  destruct (Rltb c 0); [ring|]. destruct (Rltb vv c); [ring|].
+  rewrite <- HLL. field. lra.
+Qed.
+
+Lemma dist2_pt ax ay bx by_ px py t :
+  dist2_2 (mkV2 px py : V) (pt (mkV2 ax ay) (mkV2 bx by_) t)
+  = ((px - ax) * (px - ax) + (py - ay) * (py - ay))
+    - 2 * t * ((px - ax) * (bx - ax) + (py - ay) * (by_ - ay))
+    + t * t * ((bx - ax) * (bx - ax) + (by_ - ay) * (by_ - ay)).
+Proof. unfold dist2_2, pt; cbn [vx vy]. ring. Qed.
+
+(* the specification value is the squared distance to the segment *)
+Theorem segdist2_spec_exact (l : SegR) (p : V) : nondeg l ->
+  is_segdist2 (fst l) (snd l) p (segdist2_spec l p).
+Proof.
+  destruct l as [[ax ay] [bx by_]], p as [px py]. unfold nondeg; cbn [fst snd vx vy]. intros Hpos.
+  unfold is_segdist2, segdist2_spec, v2len2, v2dot, v2cross, v2sub; cbn [fst snd vx vy]. unops.
+  remember ((bx - ax) * (bx - ax) + (by_ - ay) * (by_ - ay)) as vv eqn:Evv.
+  remember ((px - ax) * (bx - ax) + (py - ay) * (by_ - ay)) as c eqn:Ec.
+  remember ((px - ax) * (px - ax) + (py - ay) * (py - ay)) as ww eqn:Ew.
+  assert (Hf : forall t, dist2_2 (mkV2 px py : V) (pt (mkV2 ax ay) (mkV2 bx by_) t) = ww - 2 * t * c + t * t * vv).
+  { intros t. rewrite dist2_pt. subst; ring. }
+  destruct (Rltb c 0) eqn:C1; [apply Rltb_true in C1 | apply Rltb_false in C1].
+  - split.
+    + exists 0. split; [lra|]. rewrite Hf. ring.
+    + intros t Ht. rewrite Hf. assert (0 <= t * t * vv) by (apply Rmult_le_pos; [apply sq_nn | lra]). nra.
+  - destruct (Rltb vv c) eqn:C2; [apply Rltb_true in C2 | apply Rltb_false in C2].
+    + split.
+      * exists 1. split; [lra|]. rewrite Hf. subst; ring.
+      * intros t Ht. rewrite Hf.
+        replace ((px - bx) * (px - bx) + (py - by_) * (py - by_)) with (ww - 2 * c + vv) by (subst; ring).
+        assert (0 <= (1 - t) * (2 * c - (1 + t) * vv)) by (apply Rmult_le_pos; nra). nra.
+    + (* the foot of the perpendicular *)
+      assert (Lag : ((bx - ax) * (py - ay) - (by_ - ay) * (px - ax)) * ((bx - ax) * (py - ay) - (by_ - ay) * (px - ax))
+                    = ww * vv - c * c) by (subst; ring).
+      rewrite Lag. split.
+      * exists (c / vv). split.
+        { split; [apply Rmult_le_pos; [lra | left; apply Rinv_0_lt_compat; lra]|].
+          apply Rmult_le_reg_r with vv; [lra|]. replace (c / vv * vv) with c by (field; lra). lra. }
+        { rewrite Hf. field. lra. }
+      * intros t Ht. rewrite Hf.
+        replace (ww - 2 * t * c + t * t * vv) with ((ww * vv - c * c) / vv + vv * ((t - c / vv) * (t - c / vv))) by (field; lra).
+        assert (0 <= vv * ((t - c / vv) * (t - c / vv))) by (apply Rmult_le_pos; [lra | apply sq_nn]). lra.
+Qed.
+
+(* (2) as stated for the code: minDistance2 is the squared Euclidean distance to the segment *)
+Theorem segdist2_exact (l : SegR) (p : V) : nondeg l ->
+  is_segdist2 (fst l) (snd l) p (min_distance2 (new_line_info l) p).
+Proof. intros H. rewrite mindist2_eq_spec by exact H. apply segdist2_spec_exact; exact H. Qed.
+
+(* ------------------------------------------------------------ (3) splitting a segment: distance *)
+Lemma pt_0 A B : pt A B 0 = A.
+Proof. destruct A as [ax ay]; unfold pt; cbn [vx vy]. f_equal; ring. Qed.
+Lemma pt_1 A B : pt A B 1 = B.
+Proof. destruct A as [ax ay], B as [bx by_]; unfold pt; cbn [vx vy]. f_equal; ring. Qed.
+
+Lemma pt_left A B C s t : between A B C s -> pt A C t = pt A B (t * s).
+Proof.
+  intros (_ & Hx & Hy). destruct A as [ax ay], B as [bx by_], C as [cx cy]; cbn [vx vy] in *.
+  unfold pt; cbn [vx vy]. subst cx cy. f_equal; ring.
+Qed.
+Lemma pt_right A B C s t : between A B C s -> pt C B t = pt A B (s + t * (1 - s)).
+Proof.
+  intros (_ & Hx & Hy). destruct A as [ax ay], B as [bx by_], C as [cx cy]; cbn [vx vy] in *.
+  unfold pt; cbn [vx vy]. subst cx cy. f_equal; ring.
+Qed.
+
+Theorem is_segdist2_split (A B C p : V) (s d1 d2 : R) : between A B C s ->
+  is_segdist2 A C p d1 -> is_segdist2 C B p d2 -> is_segdist2 A B p (Rmin d1 d2).
+Proof.
+  intros Hb [(t1 & Ht1 & E1) L1] [(t2 & Ht2 & E2) L2]. pose proof Hb as ((Hs0 & Hs1) & _).
+  split.
+  - unfold Rmin; destruct (Rle_dec d1 d2).
+    + exists (t1 * s). split; [nra|]. rewrite <- (pt_left A B C s t1 Hb). exact E1.
+    + exists (s + t2 * (1 - s)). split; [nra|]. rewrite <- (pt_right A B C s t2 Hb). exact E2.
+  - intros t Ht. destruct (Rle_dec t s) as [Hts|Hts].
+    + assert (Hq : 0 <= t / s <= 1).
+      { split; [apply Rmult_le_pos; [lra | left; apply Rinv_0_lt_compat; lra]|].
+        apply Rmult_le_reg_r with s; [lra|]. replace (t / s * s) with t by (field; lra). lra. }
+      specialize (L1 (t / s) Hq). rewrite (pt_left A B C s (t / s) Hb) in L1.
+      replace (t / s * s) with t in L1 by (field; lra). pose proof (Rmin_l d1 d2). lra.
+    + apply Rnot_le_lt in Hts.
+      assert (Hq : 0 <= (t - s) / (1 - s) <= 1).
+      { split; [apply Rmult_le_pos; [lra | left; apply Rinv_0_lt_compat; lra]|].
+        apply Rmult_le_reg_r with (1 - s); [lra|]. replace ((t - s) / (1 - s) * (1 - s)) with (t - s) by (field; lra). lra. }
+      specialize (L2 ((t - s) / (1 - s)) Hq). rewrite (pt_right A B C s _ Hb) in L2.
+      replace (s + (t - s) / (1 - s) * (1 - s)) with t in L2 by (field; lra). pose proof (Rmin_r d1 d2). lra.
+Qed.
+
+(* ------------------------------------------------------------ chains of pieces *)
+(* pcs = (S0,S1),(S1,S2),...,(Sk,B) with Si = A + ti (B - A), t0 < t1 < ... < 1 *)
+Inductive chain_from (A B : V) : R -> list SegR -> Prop :=
+| chain_last (S : V) (t0 : R) : S = pt A B t0 -> t0 < 1 -> chain_from A B t0 [(S, B)]
+| chain_cons (S C : V) (t0 t1 : R) (rest : list SegR) :
+    S = pt A B t0 -> C = pt A B t1 -> t0 < t1 < 1 ->
+    chain_from A B t1 rest -> chain_from A B t0 ((S, C) :: rest).
+
+(* every original segment is the chain of its pieces *)
+Definition is_chain (l : SegR) (pcs : list SegR) : Prop := chain_from (fst l) (snd l) 0 pcs.
+
+Lemma between_pt A B t0 t1 : 0 <= t0 -> t0 < t1 < 1 ->
+  between (pt A B t0) B (pt A B t1) ((t1 - t0) / (1 - t0)).
+Proof.
+  intros H0 H1. destruct A as [ax ay], B as [bx by_]. unfold between, pt; cbn [vx vy]. unops. split; [|split].
+  - split; [apply Rdiv_lt_0_compat; lra|].
+    apply Rmult_lt_reg_r with (1 - t0); [lra|]. replace ((t1 - t0) / (1 - t0) * (1 - t0)) with (t1 - t0) by (field; lra). lra.
+  - field; lra.
+  - field; lra.
+Qed.
+
+Lemma chain_winding A B p t0 pcs : 0 <= t0 -> chain_from A B t0 pcs ->
+  sumZ (map (fun s => cross_spec s p) pcs) = cross_spec (pt A B t0, B) p.
+Proof.
+  intros H0 Hc. induction Hc as [S t0 ES Ht | S C t0 t1 rest ES EC Ht Hc IH].
+  - subst S. cbn. lia.
+  - subst S C. cbn [map sumZ fold_right]. fold (sumZ (map (fun s => cross_spec s p) rest)).
+    rewrite IH by lra. apply (cross_spec_split _ _ _ p _ (between_pt A B t0 t1 H0 Ht)).
+Qed.
+
+Lemma nondeg_pt A B t0 t1 : nondeg (A, B) -> t0 <> t1 -> nondeg (pt A B t0, pt A B t1).
+Proof.
+  destruct A as [ax ay], B as [bx by_]. unfold nondeg, pt; cbn [fst snd vx vy]. intros H Hn.
+  replace ((ax + t1 * (bx - ax) - (ax + t0 * (bx - ax))) * (ax + t1 * (bx - ax) - (ax + t0 * (bx - ax))) +
+           (ay + t1 * (by_ - ay) - (ay + t0 * (by_ - ay))) * (ay + t1 * (by_ - ay) - (ay + t0 * (by_ - ay))))
+    with ((t1 - t0) * (t1 - t0) * ((bx - ax) * (bx - ax) + (by_ - ay) * (by_ - ay))) by ring.
+  apply Rmult_lt_0_compat; [apply sq_pos; lra | exact H].
+Qed.
+
+Definition d2f (p : V) (s : SegR) : R := min_distance2 (new_line_info s) p.
+Definition minl (l : list R) (dd : R) : R := fold_left Rmin l dd.
+
+Lemma chain_dist A B p t0 pcs : nondeg (A, B) -> 0 <= t0 -> chain_from A B t0 pcs ->
+  exists D, is_segdist2 (pt A B t0) B p D /\ forall dd, minl (map (d2f p) pcs) dd = Rmin dd D.
+Proof.
+  intros Hn H0 Hc. induction Hc as [S t0 ES Ht | S C t0 t1 rest ES EC Ht Hc IH].
+  - subst S. exists (d2f p (pt A B t0, B)). split.
+    + apply (segdist2_exact (pt A B t0, B) p). rewrite <- (pt_1 A B) at 2. apply nondeg_pt; [exact Hn | lra].
+    + intros dd. reflexivity.
+  - subst S C. destruct IH as (D & HD & HE); [lra|].
+    exists (Rmin (d2f p (pt A B t0, pt A B t1)) D). split.
+    + apply (is_segdist2_split _ _ _ p _ _ _ (between_pt A B t0 t1 H0 Ht)); [|exact HD].
+      apply (segdist2_exact (pt A B t0, pt A B t1) p). apply nondeg_pt; [exact Hn | lra].
+    + intros dd. unfold minl in *. cbn [map fold_left]. rewrite HE. rewrite Rmin_assoc. reflexivity.
+Qed.
+
+(* a chain of a non-degenerate segment counts and measures what the segment does *)
+Theorem chain_preserves (l : SegR) (pcs : list SegR) (p : V) : is_chain l pcs ->
+  sumZ (map (fun s => winding (new_line_info s) p) pcs) = winding (new_line_info l) p /\
+  (nondeg l -> forall dd, minl (map (d2f p) pcs) dd = Rmin dd (d2f p l)).
+Proof.
+  destruct l as [A B]. unfold is_chain; cbn [fst snd]. intros Hc. split.
+  - rewrite (map_ext _ (fun s => cross_spec s p)) by (intros; apply winding_eq_spec).
+    rewrite (chain_winding A B p 0 pcs (Rle_refl 0) Hc). rewrite pt_0. symmetry; apply winding_eq_spec.
+  - intros Hn dd. destruct (chain_dist A B p 0 pcs Hn (Rle_refl 0) Hc) as (D & HD & HE).
+    rewrite HE. f_equal. rewrite pt_0 in HD.
+    exact (is_segdist2_unique A B p _ _ HD (segdist2_exact (A, B) p Hn)).
+Qed.
+
+
+Lemma nondeg_between_l A B C s : between A B C s -> nondeg (A, B) -> nondeg (A, C).
+Proof.
+  intros ((H0 & H1) & Hx & Hy). destruct A as [ax ay], B as [bx by_], C as [cx cy]; unfold nondeg; cbn [fst snd vx vy] in *.
+  intros H. subst cx cy.
+  replace ((ax + s * (bx - ax) - ax) * (ax + s * (bx - ax) - ax) + (ay + s * (by_ - ay) - ay) * (ay + s * (by_ - ay) - ay))
+    with (s * s * ((bx - ax) * (bx - ax) + (by_ - ay) * (by_ - ay))) by ring.
+  apply Rmult_lt_0_compat; [apply sq_pos; lra | exact H].
+Qed.
+Lemma nondeg_between_r A B C s : between A B C s -> nondeg (A, B) -> nondeg (C, B).
+Proof.
+  intros ((H0 & H1) & Hx & Hy). destruct A as [ax ay], B as [bx by_], C as [cx cy]; unfold nondeg; cbn [fst snd vx vy] in *.
+  intros H. subst cx cy.
+  replace ((bx - (ax + s * (bx - ax))) * (bx - (ax + s * (bx - ax))) + (by_ - (ay + s * (by_ - ay))) * (by_ - (ay + s * (by_ - ay))))
+    with ((1 - s) * (1 - s) * ((bx - ax) * (bx - ax) + (by_ - ay) * (by_ - ay))) by ring.
+  apply Rmult_lt_0_compat; [apply sq_pos; lra | exact H].
+Qed.
+
+(* (3) both halves together *)
+Theorem split_preserves (A B C p : V) (s : R) : between A B C s ->
+  (winding (new_line_info (A, C)) p + winding (new_line_info (C, B)) p = winding (new_line_info (A, B)) p)%Z /\
+  (nondeg (A, B) ->
+   Rmin (min_distance2 (new_line_info (A, C)) p) (min_distance2 (new_line_info (C, B)) p)
+   = min_distance2 (new_line_info (A, B)) p).
+Proof.
+  intros Hb. split; [exact (winding_split A B C p s Hb)|]. intros Hn.
+  apply (is_segdist2_unique A B p); [|exact (segdist2_exact (A, B) p Hn)].
+  apply (is_segdist2_split A B C p s _ _ Hb).
+  - exact (segdist2_exact (A, C) p (nondeg_between_l A B C s Hb Hn)).
+  - exact (segdist2_exact (C, B) p (nondeg_between_r A B C s Hb Hn)).
+Qed.
